@@ -593,14 +593,15 @@ class WordOfIndicesVariables(BaseVariableGroup):
             raise ValueError("Pattern does not match the indices in this variable group")
 
     def __call__(self,*pattern):
+        # the empty pattern matches every index, as in `label` and
+        # `indices` (words of length 0 have the empty index, too)
+        if len(pattern) == 0:
+            return (self._unsafe_index_to_lit(t) for t in self.indices(*pattern))
         try:
             return self.seq2vid[pattern]
         except KeyError:
             pass
-        if len(pattern) == 0:
-            return (self._unsafe_index_to_lit(t) for t in self.indices(*pattern))
-        else:
-            raise ValueError("Pattern does not match the indices in this variable group")
+        raise ValueError("Pattern does not match the indices in this variable group")
 
     def _unsafe_index_to_lit(self, index):
         """Converts a variable index into a variable ID
